@@ -11,6 +11,7 @@ import (
 type lockState struct {
 	held    bool
 	readers int
+	vc      vclock
 }
 
 func (ex *Exec) lockOf(c *Cell) *lockState {
@@ -89,8 +90,23 @@ func (ex *Exec) cancelCtx(c *Opaque, why string) {
 	}
 	c.Fields["done"] = true
 	c.Fields["err"] = why
+	// cancellation happens before whatever observes Done() closed (no edge when the environment ends it)
+	if why == "context canceled" && ex.sched != nil {
+		var v vclock
+		if old, ok := c.Fields["cancelVC"].(vclock); ok {
+			v = old
+		}
+		ex.release(&v)
+		c.Fields["cancelVC"] = v
+	}
 	if ch, ok := c.Fields["doneCh"].(*Chan); ok && !ch.closed {
 		ch.closed = true
+		if v, ok := c.Fields["cancelVC"].(vclock); ok {
+			if ch.vc == nil {
+				ch.vc = vclock{}
+			}
+			ch.vc.join(v)
+		}
 	}
 	kids, _ := c.Fields["children"].([]*Opaque)
 	for _, k := range kids {
@@ -146,6 +162,9 @@ func init() {
 			ch = ex.newChan(0, types.NewStruct(nil, nil))
 			if d, _ := op.Fields["done"].(bool); d {
 				ch.closed = true
+				if v, ok := op.Fields["cancelVC"].(vclock); ok {
+					ch.vc = v.clone()
+				}
 			}
 			op.Fields["doneCh"] = ch
 		}
@@ -221,7 +240,8 @@ func init() {
 		s := ex.scheduler()
 		tt := ex.namedType("time", "Timer")
 		st := zero(tt).(*Struct)
-		t := &timerObj{id: len(s.timers), due: s.now + d, fn: fn}
+		t := &timerObj{id: len(s.timers), due: s.now + d, fn: fn, vc: s.cur.vc.clone()}
+		s.cur.vc[s.cur.id]++
 		if fn == nil {
 			t.ch = ex.newChan(1, ex.namedType("time", "Time"))
 			t.ch.timer = t
@@ -285,12 +305,14 @@ func init() {
 		cell.Atomic = true
 		cell.V = a[1]
 		ex.atomicOps++
+		ex.release(&ex.lockOf(cell).vc)
 		return nil
 	}
 	stdModels["sync/atomic.LoadPointer"] = func(ex *Exec, c *frame, fn *ssa.Function, a []Value) Value {
 		cell := ptrArg(ex, a[0])
 		cell.Atomic = true
 		ex.atomicOps++
+		ex.acquire(ex.lockOf(cell).vc)
 		return cell.V
 	}
 
@@ -301,6 +323,7 @@ func init() {
 			ex.scheduler().block(func() bool { return !l.held }, "lock@"+c.shortPosSafe())
 		}
 		l.held = true
+		ex.acquire(l.vc)
 		return nil
 	}
 	stdModels["(*sync.Mutex).Unlock"] = func(ex *Exec, c *frame, fn *ssa.Function, a []Value) Value {
@@ -309,6 +332,7 @@ func init() {
 			ex.goPanicf("sync: unlock of unlocked mutex")
 		}
 		l.held = false
+		ex.release(&l.vc)
 		return nil
 	}
 	stdModels["(*sync.Mutex).TryLock"] = func(ex *Exec, c *frame, fn *ssa.Function, a []Value) Value {
@@ -317,6 +341,7 @@ func init() {
 			return false
 		}
 		l.held = true
+		ex.acquire(l.vc)
 		return true
 	}
 	stdModels["(*sync.RWMutex).Lock"] = func(ex *Exec, c *frame, fn *ssa.Function, a []Value) Value {
@@ -325,6 +350,7 @@ func init() {
 			ex.scheduler().block(func() bool { return !l.held && l.readers == 0 }, "lock@"+c.shortPosSafe())
 		}
 		l.held = true
+		ex.acquire(l.vc)
 		return nil
 	}
 	stdModels["(*sync.RWMutex).Unlock"] = stdModels["(*sync.Mutex).Unlock"]
@@ -334,6 +360,7 @@ func init() {
 			ex.scheduler().block(func() bool { return !l.held }, "rlock@"+c.shortPosSafe())
 		}
 		l.readers++
+		ex.acquire(l.vc)
 		return nil
 	}
 	stdModels["(*sync.RWMutex).RUnlock"] = func(ex *Exec, c *frame, fn *ssa.Function, a []Value) Value {
@@ -342,6 +369,7 @@ func init() {
 			ex.goPanicf("sync: RUnlock of unlocked RWMutex")
 		}
 		l.readers--
+		ex.release(&l.vc)
 		return nil
 	}
 	stdModels["(*sync.WaitGroup).Add"] = func(ex *Exec, c *frame, fn *ssa.Function, a []Value) Value {
@@ -355,6 +383,7 @@ func init() {
 	}
 	stdModels["(*sync.WaitGroup).Done"] = func(ex *Exec, c *frame, fn *ssa.Function, a []Value) Value {
 		l := ex.lockOf(ptrArg(ex, a[0]))
+		ex.release(&l.vc)
 		l.readers--
 		if l.readers < 0 {
 			ex.goPanicf("sync: negative WaitGroup counter")
@@ -366,6 +395,7 @@ func init() {
 		if l.readers > 0 {
 			ex.scheduler().block(func() bool { return l.readers == 0 }, "wg-wait")
 		}
+		ex.acquire(l.vc)
 		return nil
 	}
 }
